@@ -14,7 +14,6 @@
 
 use crate::tag::TagHeader;
 use crate::TagType;
-#[cfg(feature = "builder")]
 use core::mem::size_of;
 use core::slice;
 use core::str;
@@ -164,6 +163,11 @@ impl RsdpV2Tag {
     /// Validation of the RSDPv2 extended checksum
     #[must_use]
     pub fn checksum_is_valid(&self) -> bool {
+        // The tag only embeds the RSDP structure itself. A `length` that
+        // exceeds it can't be summed up without leaving the tag.
+        if self.length as usize > Self::BASE_SIZE - size_of::<TagHeader>() {
+            return false;
+        }
         let bytes = unsafe {
             slice::from_raw_parts(self as *const _ as *const u8, self.length as usize + 8)
         };
